@@ -1,5 +1,11 @@
 mod explore;
 mod props;
+mod doc;
+mod frags;
+mod gen;
+mod pipeline;
+mod refsem;
+mod space;
 mod textmodel;
 
 use explore::{check_main, replay_main, worker_main, Engine, Tier};
